@@ -9,15 +9,15 @@ import props
 V = os.path.dirname(os.path.dirname(os.path.abspath(__file__)))
 
 TEXT = {
- "C01": ("Lean theorems over the engine model (matcher soundness/completeness against the inductive instance relation, traversal reaches every node) + differential correspondence of the real engine against the model on generated (patch, file) pairs; projection: which locations are rewritten.",
+ "C01": ("Lean theorems over the engine model: the matcher accepts only instances (soundness against the inductive instance relation), every node is tried; a reference matcher that explores every run of every elision decides 'is an instance' exactly on well-typed trees (isInstance_iff) and contains the engine's matcher; for elision-free patterns (repeated metavariables included) the engine's matcher is complete; a concrete instance the engine misses (nested elision, known finding F22) is a theorem. Tie: the real engine in-process and the built binary (--print-only) against the model on generated (patch, file) pairs, projection: which locations are rewritten; the reference matcher as oracle for the converse on every node; typing hypotheses evaluated on every tree under the schema of go/ast dumped by reflection on every run; the compiled pattern against an independent parse of the generator's text.",
          "6 C01", "Lean 4 proof over hand-written model + differential correspondence (locations projection)"),
- "C02": ("Lean theorems: metavariable kind test, consistency of repeated occurrences, no leakage between attempts (site list is a function of matcher, node and the incoming data); correspondence on patterns with repeated metavariables and inconsistent fillers.",
+ "C02": ("Lean theorems: metavariable kind test, consistency of repeated occurrences, no leakage between attempts (site list is a function of matcher, node and the incoming data); 'stands for identical code' (order-free) agrees with 'compare with the first occurrence' on well-typed trees (eqvM is Euclidean there; counterexample on ill-typed values). Tie: in-process engine and built binary against the model on patterns with repeated metavariables and identical / almost identical (incl. respelled literals) / different fillers, wide patterns, non-identifier fillers for identifier metavariables.",
          "6 C02", "Lean 4 proof over hand-written model + differential correspondence (match decisions and locations)"),
- "C03": ("Lean theorems: replacement = instantiation of the '+' pattern with fresh copies of the captures; unbound metavariable is an error; the only silent skip is non-assignability; correspondence compares the replaced subtrees.",
+ "C03": ("Lean theorems: replacement = instantiation of the '+' pattern with fresh copies of the captures; unbound metavariable is an error; the only silent skip is non-assignability. Tie: replaced subtrees of the in-process engine and of the built binary against the model; a site both sides matched and only the model rewrote is a violation; a change the model cannot generate must make the binary fail and leave the file alone; a table of '+' sides whose tokens must arrive byte for byte, with hand-written expected files.",
          "6 C03", "Lean 4 proof over hand-written model + differential correspondence (content at rewritten sites)"),
- "C04": ("Lean theorems: the list matcher with elision succeeds iff some choice of runs exists (sound and complete against the inductive spec) and picks the leftmost-shortest solution; runs are reproduced unchanged; correspondence on patterns with 1..3 elisions and empty/non-empty runs.",
+ "C04": ("Lean theorems: the list matcher with elision succeeds iff some choice of runs exists (sound and complete against the inductive spec) and picks the leftmost-shortest solution; runs are reproduced unchanged; the run recorded for an elision is still there when the whole pattern has matched, provided elisions have distinct patch positions (evaluated per case; counterexample = repaired defect F24). Tie: in-process engine and built binary against the model on patterns with 1..3 elisions (also at the top level of statement patterns, adjacent, with a shared metavariable) and empty/non-empty runs.",
          "6 C04", "Lean 4 proof over hand-written model + differential correspondence (decision, locations, content)"),
- "C05": ("Lean frame theorems: slot updates leave every subtree not containing the parent untouched; nothing outside model sites changes; correspondence checks that every change of the implementation lies inside a site.",
+ "C05": ("Lean frame theorems: slot updates leave every subtree not containing the parent untouched; nothing outside model sites changes; correspondence (in-process engine and built binary) checks that every change of the implementation lies inside a site and that the neighbours of a rewritten run are the original elements.",
          "6 C05", "Lean 4 proof over hand-written model + differential correspondence (changes outside sites)"),
 }
 
@@ -29,9 +29,9 @@ TEXT.update({
          "6 C07", "Lean 4 proof over CLI loop model + black-box correspondence + go/parser oracle on emitted content"),
  "C12": ("Lean theorems: --diff/--print-only imply no write for all inputs; written = printed = diff-applied bytes; descriptions only for patched files." + CLI_NOTE,
          "6 C12", "Lean 4 proof over CLI loop model + black-box correspondence (disk digest, mode agreement)"),
- "C14": ("Lean theorems: effects of a run are the concatenation of per-file effects (file independence), API is a function of (patch, bytes)." + CLI_NOTE + " Arguments are permuted/repeated; API repeated and concurrent Apply compared. Partial: real preemption and FileSet atomicity are not modelled.",
+ "C14": ("Lean theorems: effects of a run are the concatenation of per-file effects (file independence), API is a function of (patch, bytes)." + CLI_NOTE + " Arguments are permuted/repeated and named in several forms (relative, absolute, through excluded directories); site-dependent rewrite errors before files where the change applies; API repeated and concurrent Apply compared, and run under the Go race detector. Partial: real preemption is not modelled.",
          "6 C14", "Lean 4 proof over CLI loop model + black-box grouped-vs-solo correspondence + API repetition"),
- "C16": ("Lean theorems: every failing file contributes an error and exit 1 wherever it sits; exit 0 implies all files processed; the temp-file+rename write is atomic at every fault/crash point (and the former in-place write is refuted)." + CLI_NOTE + " Faults enumerated: unparseable source, rewrite error, unparseable result, missing path/patch, unreadable target, RLIMIT_FSIZE at several byte counts.",
+ "C16": ("Lean theorems: every failing file contributes an error and exit 1 wherever it sits; exit 0 implies all files processed; the temp-file+rename write is atomic at every fault/crash point (and the former in-place write is refuted)." + CLI_NOTE + " Faults enumerated: unparseable source, rewrite error, unparseable result, missing path/patch (also after a covering directory), unreadable target, temporary file that cannot be created (250-byte name, read-only directory) with a shrinking patch, RLIMIT_FSIZE at several byte counts.",
          "6 C16", "Lean 4 proof over CLI loop + write model + fault enumeration against the built binary"),
  "C18": ("Lean theorems: with the flag a generated file has no effect; non-generated files and flag-off runs are unaffected; marker predicate (line split, prefix/suffix, before package) with near-miss spellings decided in Lean." + CLI_NOTE + " The header-shape table is enumerated exhaustively.",
          "6 C18", "Lean 4 proof over CLI loop + generated-marker predicate + exhaustive header table against the binary"),
@@ -47,14 +47,14 @@ TEXT["C13"] = ("Lean theorems: '#' lines never reach the section state machine a
 TEXT["C19"] = ("Lean theorems: a rejected change name is reported at the byte that is the offending character of that header line; junk where a header is expected at column 1 of its line; the metavariable scratch buffer is the patch lines byte for byte (offset mapping). Tie: section.Split, parse.Parse, engine.Compile and patch.Parse on multi-change patches with one injected fault vs the Lean model (Sec.split, parseMeta over go/scanner's tokens, compileMetaErrs, mapPos) and vs the injection point; CLI exit/stderr/no rewrite.",
          "6 C19", "Lean 4 proof over section/meta model + differential front stream with injected faults")
 
-TEXT["C09"] = ("Lean theorems: running a ++ b is running a then b on a's result (sequential composition), a non-matching change is a no-op, a failing step is reported; -p before -P in the order given. Tie: per-change decisions of the real engine vs the model on chains where change k+1 matches only the output of change k; through the CLI the combined run equals the chain of single-change runs (canonical trees, redundant parentheses removed) for every way of supplying the patches. Known finding F7 (patterns that depend on redundant parentheses) is reported as KNOWN-FINDING. Partial: the print/re-parse step between runs is external.",
+TEXT["C09"] = ("Lean theorems: running a ++ b is running a then b on a's result (sequential composition), a non-matching change is a no-op, a failing step is reported; -p before -P in the order given. Tie: per-change decisions of the real engine vs the model on chains where change k+1 matches only the output of change k; through the CLI the combined run equals the chain of single-change runs (canonical trees, redundant parentheses removed) for every way of supplying the patches. Theorem combined_eq_chain: the chain equals the combined run whenever every intermediate tree is a fixed point of print + re-parse; the harness evaluates that hypothesis on the real trees, and where it fails the known finding F7 applies (F25: comment placement in a printed intermediate file). Partial: go/printer and go/parser are parameters.",
          "6 C09", "Lean 4 proof (sequential composition of changes) + differential decisions + CLI combined-vs-chain metamorphic check")
 TEXT["C10"] = ("Lean theorems: package guard, import table rows (unnamed / literal name incl. dot and blank / identifier-metavariable name), any import of the path may satisfy the guard, all listed imports required, failed guard = no-op. Tie: exhaustive cross product of patch-side x file-side import forms x package clause x layout against the README table, the real engine and the model.",
          "6 C10", "Lean 4 proof over import/package guard model + exhaustive cross-product tie")
 TEXT["C11"] = ("Lean theorems over the import list: adding never removes, adds only the requested path; the clean-up deletes only imports of matched paths, keeps a matched import that is still referred to and not replaced by name, deletes one that is no longer referred to; unrelated imports survive. Tie: import multiset of the real engine vs the model on generated patches that add/delete/rename/match imports. astutil.AddNamedImport/DeleteNamedImport and imports.Process are assumed to have set semantics (validated differentially).",
          "6 C11", "Lean 4 proof over import-list model + differential import-multiset tie")
 
-TEXT["C17"] = ("Lean theorems: after any number of changes the comment list is a sublist of the input's (nothing invented, duplicated or reordered); a comment survives unless wholly inside a changed interval; NoPos intervals never remove comments (header/package comments are out of reach); metavariable copies carry no comments. Tie: (i) end-to-end oracle on the real binary: declarations with unchanged canonical syntax keep exactly their comments, header comments unchanged, no text more often than in the input; (ii) Lean filterComments on the intervals of the real engine vs the comments present in patch.File.Apply's output. Partial: ast.NewCommentMap, astdiff's edit script, intervalset and go/printer's comment placement are external.",
+TEXT["C17"] = ("Lean theorems: after any number of changes the comment list is a sublist of the input's (nothing invented, duplicated or reordered); a comment survives unless wholly inside a changed interval; NoPos intervals never remove comments (header/package comments are out of reach); metavariable copies carry no comments. Tie: (i) end-to-end oracle on the real binary: declarations with unchanged canonical syntax keep exactly their comments, header comments unchanged, no text more often than in the input; (ii) Lean filterComments on the intervals of the real engine vs the comments present in patch.File.Apply's output; (iii) the invariant astdiff owes the filter — no changed interval reaches into a declaration in which the engine model rewrote nothing (Lean predicate respects, theorem untouched_declaration_keeps_comments) — evaluated on the real engine's intervals of every case. Partial: ast.NewCommentMap, astdiff's edit script, intervalset and go/printer's comment placement are external.",
          "6 C17", "Lean 4 proof over comment-filter model + end-to-end comment oracle + differential interval tie")
 
 REASONS = {}
